@@ -245,6 +245,12 @@ pub fn exec(c: &Case) -> Outcome {
     let close = timed_close(conn);
     let io_thread = sess.wire.io_thread();
     let (_b, _io) = sess.broker.stop();
+    if !c.wscript.is_empty() {
+        // under a fragmenting transport, whatever else happened: header + whole frames only
+        if let Err((s, m)) = check_stream_wellformed(&sess.wire.out_snapshot()) {
+            return Outcome::fail(s, m);
+        }
+    }
     match close {
         Some(Ok(())) => {}
         Some(Err(e)) => return Outcome::fail("close-failed", format!("{:?}", e)),
@@ -353,7 +359,7 @@ pub fn parts() -> Vec<Box<dyn PartDyn>> {
     vec![Box::new(Part::<Case> {
         name: "e2e",
         rule: "sessions on the mock transport: (client,server) frame_max from {0,4096,4097,5000,8192,131072}^2, 1-3 channels, 1-6 publishes (Channel::basic_publish or Exchange::publish, arbitrary short-string exchange/routing key, all flag combinations, generated properties, body length from {0,1,small,k*p-1,k*p,k*p+1,uniform<=4p}); oracle: decoded wire per channel = Publish{fields}, one header{class 60, weight 0, size, props}, non-empty body frames <= frame_max concatenating to the body, contiguous and in publish order; non-trivial = empty body, multi-frame body or boundary length; distinct by case hash",
-        cases: |t| t.pick(800, 16000),
+        cases: |t| t.pick(4000, 60_000),
         threads: 16,
         strategy: strat,
         exec,
